@@ -135,8 +135,11 @@ def run_history(ops, rec):
                                 symid, key = renc.skesk_decrypt(k, cand_pw)
                             except wire.WireError:
                                 continue
-                            if symid == cipher and len(key) == rsym.KEYLEN[cipher]:
+                            # (a v4 SKESK carries no checksum: a wrong passphrase yields garbage that may look plausible, so the
+                            # candidate is accepted only if it yields the session key that was handed to PGPy, when one was)
+                            if symid == cipher and len(key) == rsym.KEYLEN[cipher] and (op[0] != 'enc_multipass' or bytes(key) == bytes(sk)):
                                 break
+                            symid = key = None
                         if key is None:
                             raise wire.WireError('SKESK opens under none of the passphrases used')
                     else:
